@@ -800,7 +800,7 @@ pub fn check(c: &ClsCase, l: &mut Local) -> Result<(), Fail> {
     if let Some(d0) = c.prior {
         // an earlier, unrelated computation into the same directory (its result is not judged here)
         if forms::is_fundamental_abs(d0) {
-            let _ = call_library(d0 as u128, None, Some(true), &dir);
+            let _ = call_library(d0 as u128, None, None, &dir);
             l.label("history:outdir-reused");
         }
     }
@@ -959,7 +959,7 @@ fn run(ctx: &Ctx) {
     }
     // the same output directory used for a second computation: a large relation file first, a small one after
     for (k, g) in golden().into_iter().enumerate().take(16) {
-        let prior = [47288038152303512u64, 1000000000000000127, 4 * 1000000007u64 * 998244353, 8 * 2305843009213693951u64 / 8 * 8 + 0][k % 3];
+        let prior = [47288038152303512u64, 47288038152303512 + 8 * 3, 4 * 1000000007u64 * 998244353][k % 3];
         if forms::is_fundamental_abs(prior) {
             gold.push(ClsCase { prior: Some(prior), ..g });
         }
